@@ -354,7 +354,7 @@ def obligations(targets, tier):
                                     describe=f"PacketTransmitter bookkeeping (buffer_count={a['n']}, seq width {a['sw']}, stub detector / raw transmitter) "
                                              f"satisfies the specification tp_mon on every trace over the explicit alphabet (enable high; queue.valid, payload bit, "
                                              f"lrty_pending, finish free; partner events none / LGOOD s / LCRD k / LBAD / LRTY)"))
-            if a["n"] <= 2:
+            if a["n"] <= 1:
                 W = 6
                 obs.append(tie.rmon(f"lk_{t.name}", t,
                                     mon=f"(rl_mon ptx (ptx_mstep {a['full']}) (ptx_enc {W}) (ptx_dec {W} {a['n']}) (fun _ _ => true))",
